@@ -93,7 +93,10 @@ def check_C02(tier, seed, replay=None):
     trees = [("lact", t, ("lit", (), False)) for t in trees] + trees
     groups = F.groups_from_trees(trees)
     cfg = F.RandCfg(depth=4, maxrules=3, leaves=F.LEAVES_UTF8 + F.LEAVES_FULL, preds=True, state=True, cloner=True)
-    groups += F.random_groups(seed, nrand, cfg, gi0=len(groups) + 1)
+    groups += F.random_groups(seed, nrand // 2, cfg, gi0=len(groups) + 1)
+    # the same label name in nested scopes (shadowing), labels directly over action groups
+    cfg2 = F.RandCfg(depth=4, maxrules=2, leaves=F.LEAVES_FULL, preds=True, labpool=["k", "v", "w"])
+    groups += F.random_groups(seed + 11, nrand // 2, cfg2, gi0=len(groups) + 1)
     inputs = F.all_inputs(alpha, maxlen)
     options = [opt(), opt(memo=True), opt(maxexpr=3000), opt(maxexpr=3000, memo=True)]
     nin = len(inputs)
@@ -106,10 +109,23 @@ def check_C02(tier, seed, replay=None):
 
 
 # ------------------------------------------------------------------------------------------
-def budget_plan(nin, default_ois=(0,), budget_oi=1):
+def budget_plan(nin, default_ois=(0,), budget_oi=1, lr_inputs=()):
     def plan_for(g):
+        if "lr" in g.tags:
+            return [(ii, oi) for ii in lr_inputs for oi in default_ois]
         return [(ii, oi) for ii in range(nin) for oi in ((budget_oi,) if g.maydiverge else default_ois)]
     return plan_for
+
+
+def add_lr(groups, inputs, n, seed, maxlen=4, pure=False):
+    """left-recursive towers (C08 family) appended to a check's groups, with their own input alphabet"""
+    groups += F.lr_groups(seed, n, gi0=len(groups) + 1, pure=pure)
+    first = len(inputs)
+    inputs += F.all_inputs([F.NN, F.PLUS, F.STAR_, F.LP], maxlen)
+    rng = random.Random(seed)
+    for _ in range(60):
+        inputs.append([rng.choice([F.NN, F.NN, F.PLUS, F.MINUS, F.STAR_, 94, F.LP, F.RP, 121]) for _ in range(rng.randint(maxlen + 1, maxlen + 3))])
+    return list(range(first, len(inputs)))
 
 
 def check_C05(tier, seed, replay=None):
@@ -128,7 +144,8 @@ def check_C05(tier, seed, replay=None):
     inputs = F.all_inputs([F.A, F.B], maxlen)
     options = [opt(), opt(maxexpr=3000)]
     nin = len(inputs)
-    div, tot = run.execute(groups, inputs, options, budget_plan(nin), flagsets)
+    lrin = add_lr(groups, inputs, 60 if tier == "quick" else 400, seed)     # state blocks inside left-recursive growth
+    div, tot = run.execute(groups, inputs, options, budget_plan(nin, lr_inputs=lrin), flagsets)
     return std_finish(run, div, tot, "state blocks (shallow set/inc, in-place Cloner append, globalStore increments) at every position of E(d) skeletons + random grammars with state predicates; every event carries the store and globalStore its block saw and the entry action returns the final store; all inputs over {a,b} up to the bound")
 
 
@@ -183,9 +200,12 @@ def check_C06(tier, seed, replay=None):
     combos = [(m, d, s) for m in (False, True) for d in (False, True) for s in (False, True)]
     options = [opt(memo=m, debug=d, stats=s) for (m, d, s) in combos] + [opt(memo=m, debug=d, stats=s, maxexpr=3000) for (m, d, s) in combos]
     nin = len(inputs)
+    lrin = add_lr(groups, inputs, 80 if tier == "quick" else 500, seed, pure=True)   # "for a grammar without left recursion" limits only the work bound
     run.add_witnesses([f["id"] for f in findings.active("C06")], groups, inputs, options)
 
     def plan_for(g):
+        if "lr" in g.tags:
+            return [(ii, oi) for ii in lrin for oi in range(8)]
         # Memoize on a grammar that iterates without consuming never returns (known finding F3, C16): not run here
         ois = [8 + i for i, c in enumerate(combos) if not c[0]] if g.maydiverge else range(8)
         return [(ii, oi) for ii in range(nin) for oi in ois]
@@ -221,9 +241,10 @@ def check_C10(tier, seed, replay=None):
     inputs = F.all_inputs([F.A, F.B, F.NL], maxlen)
     options = [opt(), opt(maxexpr=3000)]
     nin = len(inputs)
+    lrin = add_lr(groups, inputs, 100 if tier == "quick" else 600, seed)   # left-recursion handling when that is enabled
     xs = [[], ["-optimize-basic-latin"], ["-nolint"], ["-optimize-basic-latin", "-nolint"]]
     flagsets = [f for x in xs for f in (x, x + ["-optimize-parser"])]
-    div, tot = run.execute(groups, inputs, options, budget_plan(nin), flagsets, lower=[[201, 233]])
+    div, tot = run.execute(groups, inputs, options, budget_plan(nin, lr_inputs=lrin), flagsets, lower=[[201, 233]])
     pairs = [(i, i + 1) for i in range(0, len(run.variants), 2)]
     d2, npairs = pairwise(run, pairs, fields=("status", "ok", "end", "val", "errs", "nomatch", "escaped"))
     div += [d for d in d2 if d["gi"] not in run.wit]
@@ -257,6 +278,17 @@ def check_C11(tier, seed, replay=None):
             groups.append(g)
     inputs = F.all_inputs([F.A, F.B, F.NL], maxlen)
     nin = len(inputs)
+    # error-returning blocks inside left-recursive growth (errors of the final, non-extending attempt are not retained)
+    nlr0 = len(groups)
+    seedy = seed * 77
+    while len(groups) < nlr0 + (25 if tier == "quick" else 150):
+        seedy += 1
+        g = F.lr_group(random.Random(seedy), len(groups) + 1)
+        if 1 <= sum(1 for n in g.nodes if n["blk"]) <= maxblk + 1:
+            groups.append(g)
+    lr_first = len(inputs)
+    inputs += F.all_inputs([F.NN, F.PLUS, F.STAR_], 4) + [[F.NN, F.PLUS, F.NN, F.STAR_, F.NN, F.PLUS, F.NN], [F.NN, F.MINUS, F.NN, F.PLUS, F.NN, F.NN]]
+    lrin = list(range(lr_first, len(inputs)))
     options = []
     plans = {}
     for g in groups:
@@ -270,7 +302,7 @@ def check_C11(tier, seed, replay=None):
             for rec in (True, False):
                 options.append(opt(panicblk=b, recover=rec, errblks=[x for x in blks if rng.random() < 0.3]))
                 ois.append(len(options) - 1)
-        plans[g.gi] = [(ii, oi) for ii in range(nin) for oi in ois]
+        plans[g.gi] = [(ii, oi) for ii in (lrin if "lr" in g.tags else range(nin)) for oi in ois]
     div, tot = run.execute(groups, inputs, options, lambda g: plans[g.gi], [[], ["-optimize-parser"]])
     return std_finish(run, div, tot, "random grammars with 1..k code blocks (actions, predicates, state blocks; display names on a third of the rules) x all inputs over {a,b,\\n} x EVERY subset of blocks returning an error x every single block panicking under Recover(true) and Recover(false) x file names; errors compared as (position, rule, message) lists with de-duplication; typing (errList of *parserError, Inner identity, prefix shape) asserted inside the generated package",
                       level="fault_enumeration", extra=dict(fault_sets=len(options)))
@@ -323,6 +355,12 @@ def check_C14(tier, seed, replay=None):
     probe(lambda g: setattr(g, "rules", [g.seq([g.recover(g.lit([F.A]), g.lit([X]), ["la"]), g.throw("la")])]))
     probe(lambda g: setattr(g, "rules", [g.recover(g.un("star", g.seq([g.lit([F.A]), g.ref(2)])), g.lit([X]), ["la"]), g.choice([g.lit([F.B]), g.throw("la")])]))
     probe(lambda g: setattr(g, "rules", [g.recover(g.seq([g.un("not", g.seq([g.lit([F.A]), g.throw("la")])), g.any()]), g.lit([F.A]), ["la"])]))
+    # two recovery operators one after the other at the same depth; the later guarded expression throws the earlier one's label
+    for (l1, l2, th) in [("la", "lb", "la"), ("la", "lb", "lb"), ("lb", "la", "lb"), ("la", "lc", "la")]:
+        probe(lambda g: setattr(g, "rules", [g.seq([g.recover(g.seq([g.lit([F.A]), g.un("opt", g.throw(l1))]), g.lit([X]), [l1]),
+                                                   g.recover(g.seq([g.lit([F.B]), g.throw(th)]), g.lit([Y]), [l2])])]))
+        probe(lambda g: setattr(g, "rules", [g.recover(g.seq([g.recover(g.seq([g.lit([F.A]), g.un("opt", g.throw(l1))]), g.lit([X]), [l1]),
+                                                              g.recover(g.seq([g.lit([F.B]), g.throw(th)]), g.lit([Y]), [l2])]), g.action(g.lit([F.A])), ["la", "lb", "lc"])]))
     cfg = F.RandCfg(depth=depth, maxrules=3, throw=True, preds=True, blocks=True, errs=0.1)
     groups += F.random_groups(seed, n, cfg, gi0=len(groups) + 1)
     cfg2 = F.RandCfg(depth=depth, maxrules=3, throw=True, state=True, blocks=True)
@@ -469,7 +507,7 @@ def check_C07(tier, seed, replay=None):
     options = [opt(maxexpr=2000)]
     gp = os.path.join(P.workdir(), "groups.ndjson")
     dump_groups(groups, gp)
-    tcase = dict(inputs=inputs, options=options, lower=[[0, 0]], uclass=[[0]], cmp=dict(store=True, errs=True, ctx=False), kf=["-"], strict=[0])
+    tcase = dict(inputs=inputs, options=options, lower=[[0, 0]], uclass=[[0]], cmp=dict(store=True, errs=True, ctx=False, norm=False), kf=["-"], strict=[0])
     run.variants, run.groups, run.inputs, run.options = [P.Variant(1, "cmd", groups[:1], [])], groups, inputs, options
     div, tot = P.validate_t1(gp, tcase, [], shards=14, module="LeftRec", obsname="lrobs.ndjson",
                              lines=[json.dumps(o) + "\n" for o in obs], min_chunk=50)
@@ -829,14 +867,18 @@ def check_C04(tier, seed, replay=None):
     for gi, fid in wit.items():
         jobs.append(("wit" + fid, [allg[gi - 1]], ["-optimize-grammar"] if fid == "F14" else []))
 
+    import threading
+    render_lock = threading.Lock()
+
     def do(job, single=False):
         name, gs, fl = job
         recv = "x" if "-receiver-name=x" in fl else "c"
-        for g in gs:
-            g.recv = recv
-        txt = pack_text(gs)
-        for g in gs:
-            g.recv = "c"
+        with render_lock:            # the receiver name is a field of the (shared) groups while they are rendered
+            for g in gs:
+                g.recv = recv
+            txt = pack_text(gs)
+            for g in gs:
+                g.recv = "c"
         fl2 = list(fl)
         if "-optimize-grammar" in fl:
             fl2 += ["-alternate-entrypoints", ",".join(g.sname() for g in gs)]
@@ -877,6 +919,7 @@ def check_C04(tier, seed, replay=None):
                 failures.append(r)
     confirmed = set()
     nviol = 0
+    active = {f["id"] for f in findings.active("C04")}
     for r in failures:
         name, gs, fl = r["job"]
         g = gs[0]
@@ -887,7 +930,7 @@ def check_C04(tier, seed, replay=None):
             if r["stage"] == "build" and "-optimize-grammar" in fl and ("duplicate argument" in r["err"] or "redeclared" in r["err"]) and \
                     any(n["k"] == "label" for n in g.nodes):
                 fid = "F14"
-        if fid:
+        if fid and fid in active:
             confirmed.add(fid)
             continue
         nviol += 1
@@ -928,7 +971,7 @@ def check_C04(tier, seed, replay=None):
         rp = os.path.join(rd, "%s_g%d.json" % (d["df"], d["gi"]))
         json.dump(dict(property="C04", divergence=d, grammar=allg[d["gi"] - 1].text()), open(rp, "w"), indent=1)
         run.violation(rp, "df=%s gi=%d" % (d["df"], d["gi"]))
-    for fid in ("F13", "F14"):
+    for fid in sorted(active):
         if fid in confirmed:
             run.known.append("%s: %s" % (fid, findings.what(fid)))
         else:
@@ -939,3 +982,711 @@ def check_C04(tier, seed, replay=None):
                flag_combinations=len(combos), packages_built=len(jobs), unicode_classes=nucl + 7, method_sets_validated=tot["n"],
                states=tot["states"], transitions=tot["transitions"], failures_bisected=len(failures), violating=nviol)
     return run.finish("exploration", cov, ["the Go toolchain's verdict is the observation; Builder.tla predicts names and parameters only for the unoptimised AST"])
+
+
+# ------------------------------------------------------------------------------------------
+C13_ALPHA = [ord(c) for c in "Aa1_ <-=/{}()[]\"'`.*+?&!#%:;,\\^\n"] + [0xE2, 0x86, 0x90, 0xFF, 0x80]
+
+
+def classify_stderr(err):
+    e = err.lower()
+    if "goroutine " in err or "panic:" in err or "runtime error" in err or "[recovered" in err:
+        return "panic"
+    if err.strip() == "":
+        return "none"
+    if err.startswith("parse error"):
+        return "parse"
+    if err.startswith("build error"):
+        return "build"
+    if err.startswith("argument error"):
+        return "arg"
+    if err.startswith("format error") or "format error:" in err:
+        return "format"
+    if "flag provided but not defined" in err or "invalid value" in err or "flag needs an argument" in err or "invalid boolean" in err:
+        return "flag"
+    if err.startswith("expected one argument"):
+        return "narg"
+    if "no such file" in e or "is a directory" in e or "permission denied" in e:
+        return "open"
+    if err.startswith("write error"):
+        return "write"
+    if err.startswith("close file error"):
+        return "close"
+    return "other:" + err[:40]
+
+
+def check_C13(tier, seed, replay=None):
+    """the tool is total: no crash or hang on any grammar text and flag set"""
+    import subprocess, tempfile, hashlib, itertools
+    from peg import pack_text, Gram
+    run = Run("C13", tier, seed)
+    rng = random.Random(seed)
+    pigeon = P.build_pigeon()
+    d = tempfile.mkdtemp(prefix="c13-", dir=P.workdir())
+    texts = []          # (kind, bytes)
+    maxlen = 2 if tier == "quick" else 3
+    for L in range(maxlen + 1):
+        if L == 3:
+            allp = list(itertools.product(C13_ALPHA, repeat=3))
+            rng.shuffle(allp)
+            for t in allp[:12000]:
+                texts.append(("bytes", bytes(t)))
+        else:
+            for t in itertools.product(C13_ALPHA, repeat=L):
+                texts.append(("bytes", bytes(t)))
+    # valid grammars (every expression kind), and mutations of them
+    valid = []
+    cfgs = [F.RandCfg(depth=3, maxrules=3, preds=True, state=True, throw=True, leaves=F.LEAVES_FULL + F.LEAVES_UTF8),
+            F.RandCfg(depth=4, maxrules=3, preds=True, throw=True)]
+    for i in range(60 if tier == "quick" else 400):
+        g = F.random_group(rng, i + 1, cfgs[i % 2])
+        valid.append(pack_text([g]).encode())
+    for i in range(10 if tier == "quick" else 60):
+        valid.append(pack_text([F.lr_group(rng, 1000 + i)]).encode())
+    # the repository's own grammars
+    for root, _, files in os.walk(P.REPO):
+        for fn in files:
+            if fn.endswith(".peg"):
+                valid.append(open(os.path.join(root, fn), "rb").read())
+    for v in valid:
+        texts.append(("valid", v))
+    nm = 1500 if tier == "quick" else 20000
+    snippets = [b"{", b"}", b"<-", b"//{", b"%{", b"\"", b"'", b"[", b"]", b"(", b")", b"\\", b"/*", b"*/", b"//", b"\n", b";", b"i", b"\xff",
+                b"\\p{", b"\\x", b"\\u12", b"#{", b"&{", b"!{", b":", b"=", b"\xe2\x86\x90", b"^", b"-", b"*", b"?", b"+"]
+    for _ in range(nm):
+        v = bytearray(rng.choice(valid))
+        if len(v) == 0:
+            continue
+        for _ in range(rng.choice([1, 1, 1, 2, 3])):
+            op = rng.choice(["del", "ins", "rep", "cut", "dup"])
+            pos = rng.randrange(len(v)) if len(v) else 0
+            if op == "del" and len(v) > 1:
+                del v[pos:pos + rng.randint(1, 3)]
+            elif op == "ins":
+                v[pos:pos] = rng.choice(snippets)
+            elif op == "rep" and len(v) > 0:
+                v[pos:pos + 1] = rng.choice(snippets)
+            elif op == "cut":
+                v = v[:pos]
+            elif op == "dup":
+                v[pos:pos] = v[pos:pos + rng.randint(1, 30)]
+        texts.append(("mutated", bytes(v)))
+    # parsable but semantically odd grammars
+    head = b"{\npackage main\n}\n"
+    odd = [b"A <- Undefined 'x'\n", b"A <- 'a'\nA <- 'b'\n", b"A <- a:'x' a:'y' { return a, nil }\n", b"A <- %{nolabel}\n", b"A <- 'a' //{l} 'b'\n",
+           b"A <- B\nB <- A\n", b"A <- A 'x' / 'y'\n", b"A <- ('a'?)* \n", b"A <- c:'x' { return c, nil }\n", b"A <- x:'a' { return x }\n",
+           b"A <- 'a' { this is not go }\n", b"A <- &{ return 1 } 'a'\n", b"A <- [\\p{Nope}]\n", b"A <- [z-a]\n", b"A <- \"\\xZZ\"\n", b"A <- B //{l} C\nB <- %{l}\nC <- %{l}\n",
+           b"A <- func\n", b"func <- 'a'\n", b"A <- type:'a' { return type, nil }\n", b"", b"\n\n", b"A <- 'a'", b"A = 'a' ; B \xe2\x86\x90 'b' ; C \xe2\x9f\xb5 A B",
+           b"A \"disp\\\"lay\" <- 'a'\n", b"A <- 'a'i \"B\"i `c`i [d]i .\n", b"A <- ( ( ( 'a' ) ) )\n", b"A <- 'a' / \n", b"A <- / 'a'\n", b"A <- ()\n"]
+    for o in odd:
+        texts.append(("odd", head + o))
+        texts.append(("odd", o))
+    base_flags = ["-optimize-grammar", "-optimize-parser", "-optimize-basic-latin", "-support-left-recursion", "-nolint", "-cache", "-x", "-debug", "-no-recover"]
+    specials = [["-h"], ["-help"], ["-bogus"], ["-alternate-entrypoints", "Nope"], ["-alternate-entrypoints", "A", "-optimize-grammar"],
+                ["-receiver-name", "p"], ["-o", os.path.join(d, "nodir", "x.go")], ["-receiver-name"], ["-alternate-entrypoints", ","],
+                ["-optimize-grammar", "-alternate-entrypoints", "A,B"]]
+    jobs = []
+    for i, (kind, t) in enumerate(texts):
+        pth = os.path.join(d, "t%d.peg" % i)
+        with open(pth, "wb") as f:
+            f.write(t)
+        nf = 1 if kind == "bytes" else (4 if tier == "quick" else 8)
+        for j in range(nf):
+            if kind == "bytes":
+                fl = [] if i % 3 else ["-optimize-grammar"]
+            elif j == 0:
+                fl = []
+            elif j == 1:
+                fl = ["-optimize-grammar", "-support-left-recursion"]
+            elif rng.random() < 0.12:
+                fl = list(rng.choice(specials))
+            else:
+                fl = [x for x in base_flags if rng.random() < 0.35]
+            extra_arg = [pth]
+            if rng.random() < 0.01:
+                extra_arg = [pth, pth]
+            if rng.random() < 0.01:
+                extra_arg = [os.path.join(d, "missing.peg")]
+            jobs.append((len(jobs) + 1, kind, pth, fl, extra_arg))
+    outdir = os.path.join(d, "out")
+    os.makedirs(outdir)
+
+    def one(job):
+        k, kind, pth, fl, args = job
+        tmo = False
+        try:
+            p = subprocess.run([pigeon] + fl + args, stdout=subprocess.PIPE, stderr=subprocess.PIPE, env=P.ENV, timeout=20, stdin=subprocess.DEVNULL)
+            rc, out, err = p.returncode, p.stdout, p.stderr.decode(errors="replace")
+        except subprocess.TimeoutExpired:
+            try:        # confirm the hang with a longer limit
+                p = subprocess.run([pigeon] + fl + args, stdout=subprocess.PIPE, stderr=subprocess.PIPE, env=P.ENV, timeout=60, stdin=subprocess.DEVNULL)
+                rc, out, err = p.returncode, p.stdout, p.stderr.decode(errors="replace")
+            except subprocess.TimeoutExpired:
+                rc, out, err, tmo = -1, b"", "", True
+        if "-debug" in fl:           # the front-end's own Debug trace goes to stdout before the generated code
+            idx = out.find(b"// Code generated by pigeon")
+            out = out[idx:] if idx >= 0 else (b"" if rc != 0 or "-x" in fl else out)
+        diag = classify_stderr(err)
+        if out.strip() == b"":
+            ok = "none"
+        elif out.startswith(b"usage: "):
+            ok = "usage"
+        elif b"func Parse(filename string" in out and b"func (p *parser) parseZeroOrOneExpr" in out and rc == 0:
+            h = hashlib.sha1(out).hexdigest()
+            with open(os.path.join(outdir, h + ".go"), "wb") as f:
+                f.write(out)
+            ok = "gofile"
+        elif rc == 6:
+            ok = "raw"
+        elif rc == 1 and b"usage: " in out:
+            ok = "usage"
+        else:
+            ok = "incomplete"
+        return dict(k=k, rc=rc, diag=diag, out=ok, panic=diag == "panic", timeout=tmo, h=("-h" in fl or "-help" in fl), x="-x" in fl,
+                    o="-o" in fl, nargs=len(args)), err[-600:]
+    res = P.parallel(one, jobs, workers=16)
+    # every complete output must be syntactically valid Go
+    fm = P.sh(["gofmt", "-l", "-e", outdir], check=False, timeout=900)
+    badgo = set()
+    for ln in (fm.stderr.decode(errors="replace")).splitlines():
+        if ".go:" in ln:
+            badgo.add(os.path.basename(ln.split(".go:")[0]) + ".go")
+    lines = [json.dumps(r[0]) + "\n" for r in res]
+    div, tot = P.validate_t1(None, dict(inputs=[[]], options=[opt()]), [], shards=4, module="Cli", obsname="cliobs.ndjson", lines=lines, min_chunk=2000) \
+        if False else c13_validate(lines)
+    nviol = 0
+    rd = os.path.join(P.VERIF, "replays", "C13")
+    for dd in div:
+        nviol += 1
+        if nviol <= 25:
+            os.makedirs(rd, exist_ok=True)
+            job = jobs[dd["k"] - 1]
+            rp = os.path.join(rd, "%s_%d.json" % (dd["df"], dd["k"]))
+            json.dump(dict(property="C13", verdict=dd["df"], flags=job[3], args=[os.path.basename(a) for a in job[4]], kind=job[1],
+                           text=list(open(job[2], "rb").read()), text_preview=open(job[2], "rb").read()[:300].decode(errors="replace"),
+                           observation=res[dd["k"] - 1][0], stderr=res[dd["k"] - 1][1]), open(rp, "w"), indent=1)
+            run.violation(rp, "%s flags=%s" % (dd["df"], " ".join(job[3])))
+    if badgo:
+        os.makedirs(rd, exist_ok=True)
+        rp = os.path.join(rd, "invalid_go_output.json")
+        json.dump(dict(property="C13", verdict="exit 0 but the output is not valid Go", files=sorted(badgo)[:5], gofmt=fm.stderr.decode(errors="replace")[:1500]), open(rp, "w"), indent=1)
+        run.violation(rp, "exit 0 with an output that gofmt -e rejects")
+    from collections import Counter
+    byrc = Counter(str(r[0]["rc"]) for r in res)
+    cov = dict(evaluations=len(jobs), distinct_nontrivial=len(texts), states=tot["states"], transitions=tot["transitions"], traces_validated_against_impl=tot["n"],
+               rule="grammar texts: ALL byte strings of length <= %d over a %d-symbol alphabet of syntax-significant bytes (plus the 3 bytes of U+2190 and two ill-formed bytes), valid grammars of every expression kind incl. the repository's own .peg files, 1-3 point mutations of them (delete/insert/replace/truncate/duplicate with syntax snippets), parsable but semantically odd grammars; x flag subsets incl. -x, -h, unknown flags, bad -o, two file arguments, missing file; each run of the real command is one observation validated by TLC against Cli.tla; every exit-0 output is checked with gofmt -e" % (maxlen, len(C13_ALPHA)),
+               samples=[dict(flags=j[3], kind=j[1], observation=r[0]) for j, r in list(zip(jobs, res))[:: max(1, len(jobs) // 5)][:5]],
+               texts=len(texts), exit_status_histogram=dict(byrc), complete_outputs_checked=len(os.listdir(outdir)), violating=nviol)
+    return run.finish("fault_enumeration", cov, ["diagnostic classes are recognised by their documented prefixes on stderr", "a run exceeding 20 s and then 60 s is a hang (typical run 25 ms)"])
+
+
+def c13_validate(lines):
+    chunks = [lines[i::8] for i in range(8)]
+    chunks = [c for c in chunks if c]
+
+    def one(c):
+        return P.run_tlc("Cli", P.T1_CFG, {"cliobs.ndjson": ("text", "".join(c))}, workers=1, timeout=1800, heap="4g")
+    import re
+    div, n, st, tr = [], 0, 0, 0
+    for r, c in zip(P.parallel(one, chunks, workers=8), chunks):
+        done = None
+        for ln in r["out"].splitlines():
+            m = re.search(r'"(DIVERGE|DONE) (.*)"$', ln)
+            if m:
+                js = json.loads(m.group(2).replace('\\"', '"'))
+                if m.group(1) == "DIVERGE":
+                    div.append(js)
+                else:
+                    done = js
+        if done is None or done["n"] != len(c):
+            raise P.Inconclusive("Cli.tla did not consume every observation:\n" + r["out"][-2000:])
+        n += done["n"]
+        st += r.get("distinct", 0)
+        tr += r.get("generated", 0)
+    return div, dict(n=n, states=st, transitions=tr)
+
+
+# ------------------------------------------------------------------------------------------
+def c09_groups(seed, n, gi0=1):
+    """shared leaf rules referenced from several places, nested choices/sequences, adjacent literals/classes with
+    all combinations of i and ^, predicates, actions with labels"""
+    from peg import Gram
+    rng = random.Random(seed)
+    out = []
+    lits = [((F.A,), False), ((F.B,), False), ((F.A, F.B), False), ((F.UA,), True), ((F.B,), True), ((), False)]
+    clss = [((F.A,), (), False, False), ((F.B,), (), False, False), ((F.A,), (), True, False), ((F.B,), (), True, False),
+            ((), (F.A, F.B), False, False), ((F.UA,), (), False, True), ((F.A,), (), True, True), ((F.B, 99), (), False, False)]
+    for i in range(n):
+        g = Gram(gi0 + i)
+        nr = rng.randint(2, 4)
+
+        def term():
+            c = rng.random()
+            if c < 0.45:
+                l = rng.choice(lits)
+                return g.lit(l[0], l[1])
+            if c < 0.9:
+                k = rng.choice(clss)
+                return g.cls(k[0], k[1], k[2], k[3])
+            return g.any()
+
+        def expr(d, refs):
+            if d == 0:
+                return term()
+            k = rng.choice(["term", "term", "seq", "seq", "choice", "choice", "choice", "ref", "ref", "star", "opt", "not", "and", "action", "lact", "group"])
+            if k == "term":
+                return term()
+            if k in ("seq", "choice"):
+                kids = [expr(d - 1, refs) if rng.random() < 0.5 else term() for _ in range(rng.randint(2, 4))]
+                return g.seq(kids) if k == "seq" else g.choice(kids)
+            if k == "group":      # nested same-kind groups: (a b) c , (a / b) / c
+                inner = [term() for _ in range(2)]
+                if rng.random() < 0.5:
+                    return g.seq([g.seq(inner), term(), g.seq([term(), term()])])
+                return g.choice([g.choice(inner), term(), g.choice([term(), term()])])
+            if k == "ref":
+                return g.ref(rng.choice(refs)) if refs else term()
+            if k == "star":
+                return g.un("star", g.seq([g.cls((F.A, F.B), (), False, False), expr(d - 1, refs)]))
+            if k in ("opt", "not", "and"):
+                return g.un(k, expr(d - 1, refs))
+            if k == "action":
+                return g.action(expr(d - 1, refs))
+            return g.action(g.seq([g.label(expr(d - 1, refs)), expr(d - 1, refs)]))
+        roots = [None] * nr
+        for ri in range(nr, 0, -1):
+            refs = list(range(ri + 1, nr + 1))
+            if ri == nr or rng.random() < 0.5:
+                # leaf rule (no references): a candidate for inlining, referenced from several places
+                kids = [term() for _ in range(rng.randint(1, 3))]
+                body = g.seq(kids) if len(kids) > 1 and rng.random() < 0.6 else (g.choice(kids) if len(kids) > 1 else kids[0])
+                if rng.random() < 0.3:
+                    body = g.action(body)
+                roots[ri - 1] = body
+            else:
+                roots[ri - 1] = expr(3, refs)
+        # the first rule references later rules several times
+        if nr > 1:
+            extra = [g.ref(rng.randint(2, nr)) for _ in range(rng.randint(1, 3))]
+            roots[0] = g.choice([g.seq([roots[0]] + extra[:1]), g.seq(extra + [term()])]) if rng.random() < 0.7 else g.seq([roots[0]] + extra)
+        g.rules = roots
+        g.disp = [""] * nr
+        g.compute_args()
+        g.maydiverge = g.may_diverge()
+        out.append(g)
+    return out
+
+
+def check_C09(tier, seed, replay=None):
+    """-optimize-grammar preserves the language and what actions see"""
+    import findings
+    from rt import pairwise
+    run = Run("C09", tier, seed)
+    n, maxlen = (300, 3) if tier == "quick" else (3000, 4)
+    groups = c09_groups(seed, n)
+    groups += F.random_groups(seed + 5, n // 3, F.RandCfg(depth=3, maxrules=3, preds=True, throw=True), gi0=len(groups) + 1)
+    inputs = F.all_inputs([F.A, F.B, F.UA, 99], maxlen)
+    nin = len(inputs)
+    options = [opt(), opt(maxexpr=3000)]
+    # every protected rule is exercised as an entrypoint: "@k" enters rule k directly
+    for k in (2, 3, 4):
+        options.append(opt(entry="@%d" % k, entryrule=k))
+        options.append(opt(entry="@%d" % k, entryrule=k, maxexpr=3000))
+    rng = random.Random(seed)
+    protected = {}
+    for g in groups:
+        # a random subset of the other rules is named in -alternate-entrypoints
+        protected[g.gi] = [k for k in range(2, len(g.rules) + 1) if rng.random() < 0.5]
+
+    def plan_for(g):
+        b = 1 if g.maydiverge else 0
+        pl = [(ii, b) for ii in range(nin)]
+        for k in protected[g.gi]:
+            pl += [(ii, 2 + 2 * (k - 2) + b) for ii in range(0, nin, 2)]
+        return pl
+
+    def gen_flags(pk):
+        names = [g.sname() for g in pk] + [g.rname(k) for g in pk for k in protected[g.gi]]
+        return ["-alternate-entrypoints", ",".join(names)]
+    div, tot = run.execute(groups, inputs, options, plan_for, [["-optimize-grammar"], ["-optimize-grammar", "-optimize-parser"], []],
+                           cmp=dict(norm=True, errs=False), gen_flags_for=gen_flags, pack_size=150)
+    # real-vs-real: optimised against unoptimised (acceptance, consumed prefix, normalised value and events)
+    triples = len(run.variants) // 3
+    pairs = [(3 * i + 2, 3 * i) for i in range(triples)]
+    d2, npairs = pairwise(run, pairs, fields=("status", "ok", "end", "nval"))
+    div += d2
+    return std_finish(run, div, tot, "grammars with leaf rules referenced from several places, nested choices/sequences, adjacent literals and classes in all combinations of i and ^, predicates, actions with labels (+ random throw/recover grammars) x all inputs over {a,b,A,c} x a random subset of rules as -alternate-entrypoints (each protected rule entered directly); the -optimize-grammar parser's traces are validated against PegRef applied to the UNOPTIMISED grammar (acceptance, end offset, action events with text/pos/normalised labels, normalised value) and against the unoptimised parser",
+                      level="translation_validation", extra=dict(programs=len(run.variants), disagreements_checked=npairs + tot["n"], pairs_compared=npairs))
+
+
+# ------------------------------------------------------------------------------------------
+def check_C18(tier, seed, replay=None):
+    """concurrent parses with one generated parser are isolated (model: Pool.tla; real: -race stress, each call = its solo result)"""
+    import re
+    from peg import dump_groups
+    run = Run("C18", tier, seed)
+    # (1) design level: all interleavings of 2 (quick) / 3 (thorough) parsers sharing the pool
+    np_ = 2 if tier == "quick" else 3
+    cfg = ("SPECIFICATION Spec\nCONSTANTS\n NP = %d\n Prog <- MCProg%d\n Keys <- MCKeys\n MaxMaps = %d\n DoublePut = FALSE\n NoClear = FALSE\n"
+           "INVARIANTS ExclusiveOwnership GetIsEmpty Isolation\n%s") % (np_, np_, 8 if np_ == 2 else 11, "PROPERTY Termination\n" if np_ == 2 else "")
+    r = P.run_tlc("MCPool", cfg, {}, workers=16, timeout=3000, heap="24g")
+    if "No error has been found" not in r["out"]:
+        if "is violated" in r["out"]:
+            rd = os.path.join(P.VERIF, "replays", "C18")
+            os.makedirs(rd, exist_ok=True)
+            rp = os.path.join(rd, "pool_model.txt")
+            open(rp, "w").write(r["out"][-6000:])
+            raise P.Inconclusive("Pool.tla: an invariant of the DESIGN model is violated (see %s); a model counterexample alone is never a verdict" % rp)
+        raise P.Inconclusive("Pool.tla did not complete:\n" + r["out"][-1500:])
+    # the deviation switches must produce counterexamples (the invariants are not vacuous)
+    r2 = P.run_tlc("MCPool", cfg.replace("DoublePut = FALSE", "DoublePut = TRUE").replace("PROPERTY Termination\n", ""), {}, workers=8, timeout=600, heap="8g")
+    r3 = P.run_tlc("MCPool", cfg.replace("NoClear = FALSE", "NoClear = TRUE").replace("PROPERTY Termination\n", ""), {}, workers=8, timeout=600, heap="8g")
+    vac = [("DoublePut", "is violated" in r2["out"]), ("NoClear", "is violated" in r3["out"])]
+    if not all(v for _, v in vac):
+        raise P.Inconclusive("Pool.tla: a deviation switch no longer violates the invariants (vacuity): %s" % vac)
+    # (2) real code under concurrency, race detector on
+    n = 120 if tier == "quick" else 400
+    groups = F.random_groups(seed, n, F.RandCfg(depth=4, state=True, cloner=True, gstore=False, preds=True, errs=0.2), 1)
+    groups += F.random_groups(seed + 1, n // 2, F.RandCfg(depth=4, preds=True, throw=True), len(groups) + 1)
+    lrg = F.lr_groups(seed, n // 3, gi0=len(groups) + 1)
+    groups += lrg
+    inputs = F.all_inputs([F.A, F.B], 3) + F.all_inputs([F.NN, F.PLUS, F.STAR_], 3)
+    options = [opt(), opt(memo=True), opt(maxexpr=40), opt(allowinv=True, stats=False), opt(memo=True, maxexpr=3000)]
+    nin = len(inputs)
+    rng = random.Random(seed)
+
+    def plan_for(g):
+        pl = []
+        for ii in range(nin):
+            for oi in range(len(options)):
+                if g.maydiverge and options[oi]["maxexpr"] == 0:
+                    continue
+                if g.maydiverge and options[oi]["memo"]:
+                    continue
+                if rng.random() < 0.5:
+                    pl.append((ii, oi))
+        return pl
+    pigeon = P.build_pigeon()
+    from rt import pack_groups
+    packs = pack_groups(groups, 200)
+    variants = []
+    for pi, pk in enumerate(packs):
+        fl = ["-support-left-recursion"] if "lr" in pk[0].tags else []
+        variants.append(P.Variant(len(variants) + 1, "p%d" % pi, pk, fl))
+    G = 8 if tier == "quick" else 32
+    rounds = 3 if tier == "quick" else 12
+
+    def prep(v):
+        if not v.generate(pigeon):
+            raise P.Inconclusive("generation failed: " + v.gen_err)
+        if not v.build(race=True):
+            raise P.Inconclusive("race build failed: " + v.build_err)
+        plan = []
+        for gx, g in enumerate(v.groups):
+            for (ii, oi) in plan_for(g):
+                plan.append([gx, ii, oi])
+        solo = v.run(inputs, options, plan, timeout_ms=20000)
+        solo_err = getattr(v, "last_stderr", "")
+        conc = v.run(inputs, options, plan, timeout_ms=20000, conc=G, rounds=rounds, obs_name="obs_conc.ndjson")
+        return solo, conc, solo_err, getattr(v, "last_stderr", ""), getattr(v, "conc_failure", None), len(plan)
+    res = P.parallel(prep, variants, workers=4)
+    run.variants, run.groups, run.inputs, run.options = variants, groups, inputs, options
+    run.obs = [r_[0] for r_ in res]
+    gp = os.path.join(P.workdir(), "groups.ndjson")
+    dump_groups(groups, gp)
+    tcase = dict(inputs=inputs, options=options, lower=[[0, 0]], uclass=[[0]], cmp=dict(store=True, errs=True, ctx=False, norm=False), kf=["-"], strict=[0])
+    div, tot = P.validate_t1(gp, tcase, run.obs, shards=12)       # the solo runs are what PegRef says
+    ncmp, races = 0, 0
+    for v, (solo, conc, serr, cerr, fail, npl) in zip(variants, res):
+        if "DATA RACE" in cerr or (fail and "DATA RACE" in fail[1]):
+            races += 1
+            rd = os.path.join(P.VERIF, "replays", "C18")
+            os.makedirs(rd, exist_ok=True)
+            rp = os.path.join(rd, "race_%s.txt" % v.name)
+            open(rp, "w").write((fail[1] if fail else cerr)[-6000:])
+            run.violation(rp, "data race reported by the race detector")
+            continue
+        if fail:
+            raise P.Inconclusive("concurrent runner failed (rc=%s): %s" % (fail[0], fail[1][-800:]))
+        so = [json.loads(l) for l in open(solo)]
+        co = [json.loads(l) for l in open(conc)]
+        if len(so) != len(co):
+            raise P.Inconclusive("observation counts differ")
+        for a, b in zip(so, co):
+            ncmp += 1
+            a2 = {k: a[k] for k in a if k not in ("k",)}
+            b2 = {k: b[k] for k in b if k not in ("k",)}
+            if a2 != b2:
+                fld = [k for k in a2 if a2[k] != b2.get(k)][0]
+                div.append(dict(k=a["k"], vi=v.vi, gi=a["gi"], ii=a["ii"], oi=a["oi"], df="concurrent-" + fld, at=0, haz=[]))
+    mstates = r.get("distinct", 0)
+    return std_finish(run, div, tot, "design: Pool.tla, %d parsers sharing the state pool, every interleaving of Get / per-key copy / per-key clear / Put / adopt / write (exhaustive, %d distinct states), invariants ExclusiveOwnership, GetIsEmpty, Isolation (+ the deviation switches DoublePut and NoClear each produce a counterexample); real code: stateful (Cloner), throw/recover and left-recursive packs built with -race, %d goroutines x %d rounds calling Parse concurrently with mixed inputs and options (Memoize, MaxExpressions, AllowInvalidUTF8); every concurrent call must return exactly its solo observation (which is validated against PegRef) and the race detector must stay silent" % (np_, mstates, G, rounds),
+                      extra=dict(pool_model_states=mstates, pool_model_transitions=r.get("generated", 0), concurrent_calls_compared=ncmp, goroutines=G, rounds=rounds, race_reports=races))
+
+
+# ------------------------------------------------------------------------------------------
+def hook_astdump(reqs, timeout=1800):
+    """reqs: list of dict(id, text(list of bytes), mode) -> list of results in order"""
+    import subprocess
+    pv = P.build_pigeon("verif")
+    inp = "\n".join(json.dumps(r) for r in reqs) + "\n"
+    p = subprocess.run([pv], input=inp.encode(), stdout=subprocess.PIPE, stderr=subprocess.PIPE, env=dict(P.ENV, PIGEON_VERIF="astdump"), timeout=timeout)
+    if p.returncode != 0:
+        raise P.Inconclusive("hook failed: " + p.stderr.decode(errors="replace")[-800:])
+    out = [json.loads(l) for l in p.stdout.decode().splitlines() if l.strip()]
+    if len(out) != len(reqs):
+        raise P.Inconclusive("hook answered %d of %d requests" % (len(out), len(reqs)))
+    return out
+
+
+EMPTY_AST = dict(t="None", pos=[0, 0, 0], kids=[], val=[], name="", ic=False, inv=False, chars=[], rngs=[], ucl=[], labs=[])
+
+
+def asteq(cases, obs, mode, shards=12):
+    """TLC (AstEq.tla) over (cases, obs) pairs"""
+    import re
+    n = len(cases)
+    shards = max(1, min(shards, n // 50 or 1))
+    size = (n + shards - 1) // shards
+    jobs = []
+    for s in range(shards):
+        c, o = cases[s * size:(s + 1) * size], obs[s * size:(s + 1) * size]
+        if c:
+            jobs.append((c, o))
+
+    def one(job):
+        c, o = job
+        return P.run_tlc("AstEq", P.T1_CFG, {"astcases.ndjson": ("text", "".join(json.dumps(x) + "\n" for x in c)),
+                                              "astobs.ndjson": ("text", "".join(json.dumps(x) + "\n" for x in o)),
+                                              "astmode.json": ("text", json.dumps(dict(mode=mode)))}, workers=1, timeout=3000, heap="6g")
+    div, tot, st, tr = [], 0, 0, 0
+    for r, (c, o) in zip(P.parallel(one, jobs, workers=len(jobs)), jobs):
+        done = None
+        for ln in r["out"].splitlines():
+            m = re.search(r'"(DIVERGE|DONE) (.*)"$', ln)
+            if m:
+                js = json.loads(m.group(2).replace('\\"', '"'))
+                if m.group(1) == "DIVERGE":
+                    div.append(js)
+                else:
+                    done = js
+        if done is None or done["n"] != len(c):
+            raise P.Inconclusive("AstEq.tla did not consume every case:\n" + r["out"][-2500:])
+        tot += done["n"]
+        st += r.get("distinct", 0)
+        tr += r.get("generated", 0)
+    return div, dict(n=tot, states=st, transitions=tr)
+
+
+def check_C03(tier, seed, replay=None):
+    """the grammar front-end accepts the documented syntax and builds the denoted AST"""
+    import pegtext as T, subprocess, tempfile
+    run = Run("C03", tier, seed)
+    rng = random.Random(seed)
+    n = 600 if tier == "quick" else 12000
+    cases = []
+    # systematic part: every expression kind at the root and as the operand of every operator, several spellings each
+    kinds = ["Lit", "Class", "Any", "Ref", "Seq", "Choice", "Action", "Label", "And", "Not", "Opt", "Star", "Plus", "State", "AndCode", "NotCode", "Throw", "Recover"]
+    def mk(kind, inner):
+        names = ["A"]
+        if kind in ("Seq", "Choice"):
+            return dict(k=kind, es=[inner(), inner()])
+        if kind in ("Action", "And", "Not", "Opt", "Star", "Plus"):
+            return dict(k=kind, e=inner())
+        if kind == "Label":
+            return dict(k="Label", name="lab", e=inner())
+        if kind == "Recover":
+            return dict(k="Recover", e=inner(), rec=inner(), labels=["err"])
+        return T.rand_expr(rng, 0, names) if kind in ("Lit", "Class", "Any", "Ref") else (dict(k=kind) if kind != "Throw" else dict(k="Throw", label="err"))
+    absgr = []
+    for outer in kinds:
+        for inner_kind in kinds:
+            e = mk(outer, lambda: mk(inner_kind, lambda: T.rand_expr(rng, 0, ["A"])))
+            absgr.append(dict(init=True, rules=[dict(name="A", disp=None, e=T.fix_shape(e))]))
+    for _ in range(n):
+        absgr.append(T.rand_grammar(rng, depth=rng.choice([2, 3, 4])))
+    ntapes = 3 if tier == "quick" else 6
+    for g in absgr:
+        for ti in range(ntapes):
+            txt, exp = T.render_grammar(g, T.Tape(rng, boring=(ti == 0)))     # tape 0: the canonical print of the AST
+            cases.append(dict(id=len(cases) + 1, text=list(txt), exp=exp))
+    obs = hook_astdump([dict(id=c["id"], text=c["text"], mode="pigeon") for c in cases])
+    for o in obs:
+        o.setdefault("ast", EMPTY_AST)
+        o.setdefault("errs", "")
+        o.pop("panic", None)
+    div, tot = asteq(cases, obs, "exp")
+    # the command itself accepts the texts (-x: parse only)
+    pigeon = P.build_pigeon()
+    d = tempfile.mkdtemp(prefix="c03-", dir=P.workdir())
+    sample = cases[:: max(1, len(cases) // (150 if tier == "quick" else 1500))]
+
+    def cmd(c):
+        pth = os.path.join(d, "c%d.peg" % c["id"])
+        open(pth, "wb").write(bytes(c["text"]))
+        p = subprocess.run([pigeon, "-x", pth], stdout=subprocess.PIPE, stderr=subprocess.PIPE, env=P.ENV, timeout=60)
+        return p.returncode, p.stderr.decode(errors="replace")[-300:]
+    nviol = 0
+    rd = os.path.join(P.VERIF, "replays", "C03")
+    for c, (rc, err) in zip(sample, P.parallel(cmd, sample)):
+        if rc != 0:
+            div.append(dict(k=c["id"], df="command-rejects", at=rc))
+    for dd in div:
+        nviol += 1
+        if nviol <= 25:
+            os.makedirs(rd, exist_ok=True)
+            c = cases[dd["k"] - 1]
+            rp = os.path.join(rd, "%s_%d.json" % (dd["df"].replace("/", "_").replace(":", "-")[:40], dd["k"]))
+            json.dump(dict(property="C03", verdict=dd["df"], text=bytes(c["text"]).decode(errors="replace"), text_bytes=c["text"], expected=c["exp"],
+                           observed=obs[dd["k"] - 1]), open(rp, "w"), indent=1)
+            run.violation(rp, dd["df"])
+    cov = dict(states=tot["states"], transitions=tot["transitions"], traces_validated_against_impl=tot["n"], evaluations=len(cases), distinct_nontrivial=len(absgr),
+               rule="abstract grammars: every expression kind as the operand of every operator (18 x 18, systematic) + random grammars of depth 2-4 with 1-4 rules (all literal quotings and escape forms incl. \\x \\ooo \\u \\U, classes with ranges/escapes/\\pL/\\p{Name}/^/i, code blocks with nested braces, strings and comments, code predicates, state blocks, throw, left-associative recover, display names, Unicode identifiers); each rendered with the canonical spelling (the print of the AST) and with random choice tapes (4 definition operators, layout, comments, terminators, redundant parentheses); the real front-end's AST (hook) must equal the AST the text was rendered from, node by node incl. positions = PegRef.LineCol(offset of the production's first token); a sample also goes through 'pigeon -x'",
+               samples=[dict(text=bytes(c["text"]).decode(errors="replace")) for c in cases[1::max(1, len(cases) // 4)][:4]],
+               texts=len(cases), abstract_grammars=len(absgr), command_runs=len(sample), violating=nviol)
+    return run.finish("model_checking", cov, ["lib/pegtext.py is the specification of the concrete syntax (a renderer with a choice tape); an escaped dash inside a class is not generated (candidate finding F18)"])
+
+
+def check_C20(tier, seed, replay=None):
+    """bootstrap chain: (a) bootstrap front-end == pigeon front-end on the bootstrap subset; (b) regeneration is a fixpoint"""
+    import pegtext as T, subprocess, shutil, hashlib, re, tempfile
+    run = Run("C20", tier, seed)
+    rng = random.Random(seed)
+    # ---- (b) regeneration fix-point on a scratch copy of the working tree ----
+    scratch = tempfile.mkdtemp(prefix="regen-", dir=P.workdir())
+    wt = os.path.join(scratch, "repo")
+    tracked = subprocess.run(["git", "-C", P.REPO, "ls-files"], stdout=subprocess.PIPE, text=True).stdout.split("\n")
+    tracked = [f for f in tracked if f]
+    for f in tracked:
+        src = os.path.join(P.REPO, f)
+        if os.path.exists(src):
+            dst = os.path.join(wt, f)
+            os.makedirs(os.path.dirname(dst), exist_ok=True)
+            shutil.copy2(src, dst)
+    mk = open(os.path.join(wt, "Makefile")).read()
+    # the Makefile's rules: target: deps (generated .go files only)
+    rules = []
+    for m in re.finditer(r"^(\S+\.go):\s*((?:[^\n\\]|\\\n)*)\n((?:\t[^\n]*\n)+)", mk, re.M):
+        tgt = m.group(1)
+        deps = [x for x in m.group(2).replace("\\\n", " ").split() if x]
+        rules.append([tgt, deps, m.group(3)])
+    var = dict(re.findall(r"^(\w+)\s*=\s*(.*)$", mk, re.M))
+
+    def expand(s):
+        for _ in range(6):
+            s = re.sub(r"\$\((\w+)\)", lambda mm: var.get(mm.group(1), mm.group(0)), s)
+        return os.path.normpath(s) if "$" not in s else s
+
+    def digest(p):
+        try:
+            return hashlib.sha256(open(os.path.join(wt, p), "rb").read()).hexdigest()
+        except FileNotFoundError:
+            return "absent"
+    targets = [(expand(t), [expand(x) for x in dp]) for t, dp, _ in rules]
+    gen_tracked = [f for f in tracked if f.endswith(".go") and open(os.path.join(P.REPO, f), "rb").read(200).startswith(b"// Code generated")]
+    before = {t: digest(t) for t, _ in targets}
+    before_all = {f: digest(f) for f in gen_tracked}
+    p = subprocess.run(["make", "-B", "all"], cwd=wt, stdout=subprocess.PIPE, stderr=subprocess.STDOUT, env=P.ENV, timeout=1800)
+    if p.returncode != 0:
+        raise P.Inconclusive("make -B all failed in the scratch copy:\n" + p.stdout.decode(errors="replace")[-2000:])
+    order = []
+    for ln in p.stdout.decode(errors="replace").splitlines():
+        m = re.search(r">\s*(\S+\.go)\s*$", ln) or re.search(r"static_code_generator \S+ (\S+\.go) ", ln)
+        if m:
+            order.append(os.path.normpath(m.group(1)))
+    tnames = [t for t, _ in targets]
+    log = []
+    for t in order:
+        if t in tnames:
+            deps = [dp for tt, dp in targets if tt == t][0]
+            log.append(dict(target=t, deps=deps, before=before[t], after=digest(t), tracked=t in tracked))
+    missing = [f for f in gen_tracked if f not in tnames]
+    r = P.run_tlc("Bootstrap", P.T1_CFG, {"regen.ndjson": ("text", "".join(json.dumps(x) + "\n" for x in log)),
+                                         "rules.json": ("text", json.dumps(dict(targets=[[t, dp] for t, dp in targets])))}, workers=1, timeout=600, heap="2g")
+    if "DONE" not in r["out"]:
+        raise P.Inconclusive("Bootstrap.tla did not finish:\n" + r["out"][-2000:])
+    rd = os.path.join(P.VERIF, "replays", "C20")
+    changed = [f for f in gen_tracked if digest(f) != before_all[f]]
+    for f in changed:
+        os.makedirs(rd, exist_ok=True)
+        a = open(os.path.join(P.REPO, f), errors="replace").read().split("\n")
+        b = open(os.path.join(wt, f), errors="replace").read().split("\n")
+        first = next((i for i, (x, y) in enumerate(zip(a, b)) if x != y), min(len(a), len(b)))
+        rp = os.path.join(rd, "regen_%s.json" % hashlib.sha1(f.encode()).hexdigest()[:8])
+        json.dump(dict(property="C20", verdict="regenerating this checked-in file from its source changes it", artifact=f, first_differing_line=first + 1,
+                       checked_in=a[first] if first < len(a) else "", regenerated=b[first] if first < len(b) else ""), open(rp, "w"), indent=1)
+        run.violation(rp, "not a fixpoint: " + f)
+    for m_ in re.finditer(r'"DIVERGE (.*)"', r["out"]):
+        js = json.loads(m_.group(1).replace('\\"', '"'))
+        if js["df"] == "order":
+            run.notes.append("regeneration order differs from the dependency order of the Makefile rules at event %d" % js["k"])
+    if missing:
+        run.notes.append("checked-in generated files that are the target of no Makefile rule: %s" % missing[:5])
+    shutil.rmtree(scratch, ignore_errors=True)
+    # ---- (a) bootstrap front-end vs pigeon front-end ----
+    n = 500 if tier == "quick" else 20000
+    cases = []
+    for i in range(n):
+        g = T.rand_grammar(rng, depth=rng.choice([1, 2, 3]))
+        inside = rng.random() < 0.85
+        if inside:
+            g = bootstrap_subset(g, rng)
+        txt, exp = T.render_grammar(g, BootTape(rng) if inside else T.Tape(rng))
+        cases.append(dict(id=i + 1, text=list(txt), exp=EMPTY_AST))
+    for root, _, files in os.walk(os.path.join(P.REPO, "grammar")):
+        for fn in files:
+            if fn.endswith(".peg"):
+                cases.append(dict(id=len(cases) + 1, text=list(open(os.path.join(root, fn), "rb").read()), exp=EMPTY_AST))
+    ob = hook_astdump([dict(id=c["id"], text=c["text"], mode="bootstrap") for c in cases])
+    op = hook_astdump([dict(id=c["id"], text=c["text"], mode="pigeon") for c in cases])
+    obs = []
+    for a, b in zip(ob, op):
+        obs.append(dict(id=a["id"], ok=bool(a.get("ok")) and "ast" in a, ast=a.get("ast", EMPTY_AST), ok2=bool(b.get("ok")) and "ast" in b, ast2=b.get("ast", EMPTY_AST)))
+    div, tot = asteq(cases, obs, "pair")
+    understood = sum(1 for o in obs if o["ok"])
+    nviol = 0
+    for dd in div:
+        nviol += 1
+        if nviol <= 25:
+            os.makedirs(rd, exist_ok=True)
+            c = cases[dd["k"] - 1]
+            rp = os.path.join(rd, "frontends_%s_%d.json" % (dd["df"].replace("/", "_").replace(":", "-")[:40], dd["k"]))
+            json.dump(dict(property="C20", verdict=dd["df"], text=bytes(c["text"]).decode(errors="replace"), bootstrap=obs[dd["k"] - 1]["ast"], pigeon=obs[dd["k"] - 1]["ast2"]), open(rp, "w"), indent=1)
+            run.violation(rp, "front-ends differ: " + dd["df"])
+    cov = dict(programs=len(cases) + len(log), disagreements_checked=understood + len(gen_tracked), samples=[dict(text=bytes(c["text"]).decode(errors="replace")) for c in cases[:3]],
+               evaluations=len(cases) + len(gen_tracked), distinct_nontrivial=understood,
+               rule="(a) random grammar texts, 85% spelled inside the bootstrap subset (no code predicates / state blocks / throw / recover, no comments outside code blocks, rule bodies on one line), plus grammar/*.peg; both front-ends through the hook; a verdict only when the BOOTSTRAP front-end reports no error (that is what 'understood by' means): then the pigeon front-end must accept and TLC (AstEq.tla, pair mode) compares the two ASTs structurally, positions and display-name quoting projected away. (b) a scratch copy of the working tree is regenerated with the repository's own Makefile (make -B all); every checked-in generated file must be byte-identical afterwards; the log of Regen events is validated against Bootstrap.tla (one rule per target, dependency order, every Regen a stuttering step)",
+               texts=len(cases), understood_by_bootstrap=understood, regen_events=len(log), generated_files_compared=len(gen_tracked), files_changed_by_regeneration=len(changed),
+               states=tot["states"] + r.get("distinct", 0), transitions=tot["transitions"] + r.get("generated", 0), violating=nviol)
+    return run.finish("translation_validation", cov, ["the bootstrap subset is defined by the bootstrap front-end's own acceptance"])
+
+
+class BootTape:
+    """spellings inside the bootstrap subset: single spaces, no comments, '<-' or '=' or the arrows, newline terminators"""
+    def __init__(self, rng):
+        self.rng, self.boring = rng, False
+
+    def pick(self, n):
+        return self.rng.randrange(n) if n in (4, 2) else (1 if n == 6 else 0)
+
+    def chance(self, p):
+        return False
+
+
+def bootstrap_subset(g, rng):
+    """rewrite an abstract grammar so that it avoids what the hand-written bootstrap front-end does not know"""
+    def fix(e):
+        k = e["k"]
+        if k in ("State", "AndCode", "NotCode", "Throw"):
+            return dict(k="Any")
+        if k == "Recover":
+            return fix(e["e"])
+        if k in ("Seq", "Choice"):
+            e["es"] = [fix(x) for x in e["es"]]
+            return e
+        if "e" in e:
+            e["e"] = fix(e["e"])
+        return e
+    for r in g["rules"]:
+        r["e"] = fix(r["e"])
+    return g
